@@ -6,6 +6,7 @@ compare; id()-disjointness of successive results); an argument recorder inside e
 count, typed values); icontract postcondition on the real Context._to_python (JSON-like output only).
 """
 import json
+import re
 import math
 import random
 
@@ -272,6 +273,81 @@ def w_callhist(case, opts):
     return out
 
 
+def w_interleave(case, opts):
+    """One context, a generated interleaving of set / eval / get - including get issued from inside an exposed callable while an
+    evaluation is in progress, after the script changed the value in place.  Oracles: (a) get(name) inside the callable equals the
+    same value passed to the callable as an argument (both typed); (b) get(name) equals eval(name) after every step; (c) what get
+    returns is private: changing it never shows in a later get."""
+    from vf import engine as E
+    ctx = E.new_context()
+    recs = []
+
+    def spoil(v):
+        if isinstance(v, list):
+            v.append("SPOILED")
+            for x in v[:-1]:
+                spoil(x)
+        elif isinstance(v, dict):
+            v["SPOILED"] = 1
+            for x in list(v.values()):
+                spoil(x)
+
+    def peek(name, arg):
+        got = ctx.get(name)
+        again = ctx.get(name)
+        recs.append(["peek", name, E.encpy(got), E.encpy(ctx._to_python(arg)), E.encpy(again)])
+        spoil(got)
+        return len(recs)
+    ctx.set("peek", peek)
+    out = {"steps": []}
+    try:
+        for st in case["steps"]:
+            if st[0] == "set":
+                ctx.set(st[1], st[2])
+            elif st[0] == "eval":
+                ctx.eval(st[1])
+            elif st[0] == "get-spoil":
+                spoil(ctx.get(st[1]))
+            row = {}
+            for nm in case["names"]:
+                g = ctx.get(nm)
+                row[nm] = [E.encpy(g), E.encpy(ctx.eval("typeof %s === 'undefined' ? undefined : %s" % (nm, nm)))]
+            out["steps"].append(row)
+    except Exception as e:
+        out["exc"] = [type(e).__name__, str(e)[:300]]
+    out["recs"] = recs
+    return out
+
+
+def gen_interleave(rng):
+    names = ["g0", "g1", "g2"]
+    vals = [[1, {"k": None}], [], {}, {"a": [1, 2], "b": {"c": []}}, [[1], [2, [3]]], "str", 5, None, [None, True, 2.5, "x"], {"n": {"m": {"o": [0]}}}]
+    muts = ["%s.push('late');", "%s.push([1]);", "%s[0] = {z: 1};", "%s.k = 2.5;", "delete %s.k;", "%s.length = 0;", "%s.a.push(9);", "%s.b.c.push({});", "%s[1].k = 'kk';", "%s.pop();",
+            "%s = [7, 8];", "%s = {fresh: true};", "%s.n.m.o[0]++;", "%s.sort();", "%s.reverse();", "%s[%s.length] = %s.length;", "%s.self = 1;", "Object.assign(%s, {as: [1]});", "%s.splice(0, 1);"]
+    steps = []
+    for nm in names:
+        steps.append(["set", nm, rng.choice(vals)])
+    for _ in range(rng.randint(2, 6)):
+        r = rng.random()
+        nm = rng.choice(names)
+        if r < 0.15:
+            steps.append(["set", nm, rng.choice(vals)])
+        elif r < 0.3:
+            steps.append(["get-spoil", nm])
+        else:
+            parts = []
+            for _ in range(rng.randint(1, 6)):
+                n2 = rng.choice(names)
+                if rng.random() < 0.45:
+                    parts.append("peek('%s', %s);" % (n2, n2))
+                else:
+                    parts.append("try { " + rng.choice(muts).replace("%s", n2) + " } catch (e) { }")
+            if rng.random() < 0.3:
+                parts = ["[1, 2].forEach(function () { " + " ".join(parts) + " });"]
+            steps.append(["eval", " ".join(parts) + " 0"])
+    return {"names": names, "steps": steps}
+
+
 def gen_callhist(rng):
     pre = ("var B1 = rec.bind(null, 'p1'), B0 = rec.bind(null), B2 = rec.bind({t: 1}, 'p1', 2), B3 = B1.bind(null, 'q'), holder = {m: rec, b: B1}, "
            "viaCall = function () { return rec.apply(null, arguments); };\n")
@@ -400,6 +476,8 @@ def main(ctx):
             src, model = gen_callhist(fixed if i % 2 else rng)
             hcases.append({"src": src, "model": model})
         hres = ep.map({"mod": "checks.C11", "fn": "w_callhist"}, hcases, batch=50, timeout=300)
+        icases = [gen_interleave(fixed if i % 2 else rng) for i in range(400 if ctx.quick else 8000)]
+        ires = ep.map({"mod": "checks.C11", "fn": "w_interleave"}, icases, batch=50, timeout=300)
     finally:
         ep.close()
     evals = 0
@@ -462,6 +540,38 @@ def main(ctx):
                                                                                        "monitor": "recorder inside the exposed callable vs call-by-call model"})
         else:
             ctx.nontrivial(h(c["src"]))
+    peeks = 0
+    for c, r in zip(icases, ires):
+        ctx.count()
+        prob = None
+        if not r or "exc" in r:
+            prob = "interleaving raised %s" % ((r or {}).get("exc"),)
+        else:
+            for rec_ in r["recs"]:
+                peeks += 1
+                if numnorm(rec_[2]) != numnorm(rec_[3]):
+                    prob = "get(%s) inside a callable returned %s while the script's value was %s" % (rec_[1], short(rec_[2]), short(rec_[3]))
+                    break
+                if rec_[2] != rec_[4]:
+                    prob = "two consecutive get(%s) inside a callable disagree: %s / %s" % (rec_[1], short(rec_[2]), short(rec_[4]))
+                    break
+            if not prob:
+                for si, row in enumerate(r["steps"]):
+                    for nm, (g, e) in row.items():
+                        if numnorm(g) != numnorm(e):
+                            prob = "after step %d get(%s) = %s but eval(%s) = %s" % (si, nm, short(g), nm, short(e))
+                            break
+                        if "SPOILED" in json.dumps(g):
+                            prob = "after step %d get(%s) shows a change made to an earlier get result: %s" % (si, nm, short(g))
+                            break
+                    if prob:
+                        break
+        if prob:
+            ctx.violation(("interleaving", re.sub(r"\d+", "N", prob.split("(")[0])[:40]), {"case": c, "problem": prob, "monitor": "re-entrant get vs argument conversion; get vs eval after every step; privacy of results"})
+        else:
+            ctx.nontrivial(h(c))
+    ctx.cov["interleavings"] = len(icases)
+    ctx.cov["reentrant_get_observations"] = peeks
     exp_map = dict(JS_VALUES)
     ret_findings = 0
     for c, r in zip(acases, ares):
